@@ -355,6 +355,17 @@ fn cases(thorough: bool) -> Vec<Case> {
         none.clone(),
         pb,
     );
+    // ... a user with exactly ONE slot left and two new appointments: check and charge are one critical section of the users map
+    let last_slot_cfg = Cfg { slots: 1, duration: 400, delta: 10 };
+    with("add-new||add-new-last-slot", last_slot_cfg, vec![(AOp::Reg(1), none.clone())], vec![vec![a17.clone()], vec![a18.clone()]], none.clone(), pb);
+    with(
+        "add-update-bigger||add-new-last-slot",
+        Cfg { slots: 2, duration: 400, delta: 10 },
+        vec![(AOp::Reg(1), none.clone()), (a17.clone(), none.clone())],
+        vec![vec![a17big.clone()], vec![a18.clone()]],
+        none.clone(),
+        pb,
+    );
     with("add-new||get", std_cfg(), reg12.clone(), vec![vec![a17.clone()], vec![g17.clone()]], none.clone(), pb);
     with(
         "add-update||get",
